@@ -422,7 +422,17 @@ func runTimeouts(cfg Config) {
 					}
 				}(k)
 			}
-			cw.Wait()
+			{
+				done := make(chan bool)
+				go func() { cw.Wait(); close(done) }()
+				select {
+				case <-done:
+				case <-time.After(8 * time.Second):
+					enc.Encode(probeLine(i, map[string]interface{}{"script": spinners[0], "crowd": true, "hung": true},
+						map[string]interface{}{"stopsWithError": false, "prompt": false}, []string{"hung"}))
+					return
+				}
+			}
 			if !crowdPrompt {
 				prompt = false
 			}
